@@ -43,7 +43,8 @@ def level_a_specs(monitors=(), linelen_variants=False, thorough=False, corpus_on
         specs.append(corpus.spec(c, monitors=monitors))
     if linelen_variants:
         r = common.rng("linelen")
-        lens = [40, 72, 100]
+        # 0 is documented as "shortest possible lines" (every break hint is taken)
+        lens = [40, 72, 100, 0, 20]
         for c in cfgs:
             picks = lens if thorough else [r.choice(lens)]
             for n in picks:
